@@ -45,6 +45,8 @@ PROGS = {
     'CAN': {'root': [['submit', 'a', 'leaf'], ['submit', 'b', 'leaf'], ['cancel', 'a'], ['await', 'b'], ['ret']], 'leaf': LEAF},
     'LEFT': {'root': [['submit', 'a', 'leaf'], ['map', 'm', 'leaf', 2], ['await', 'a'], ['ret']], 'leaf': LEAF},
     'LEFT1': {'root': [['submit', 'a', 'leaf'], ['submit', 'b', 'leaf'], ['await', 'b'], ['ret']], 'leaf': LEAF},
+    'CANL': {'root': [['submit', 'a', 'mid'], ['cancel', 'a'], ['submit', 'b', 'leaf'], ['await', 'b'], ['ret']],
+             'mid': [['submit', 'x', 'leaf'], ['ret']], 'leaf': LEAF},
     'CANB': {'root': [['map', 'm', 'leaf', 2], ['submit', 'a', 'mid'], ['cancel', 'a'], ['await', 'm'], ['ret']],
              'mid': [['map', 'k', 'leaf', 2], ['await', 'k'], ['ret']], 'leaf': LEAF},
 }
@@ -81,6 +83,9 @@ CONFIGS = {
     # a defect the model found in the code as it was when this layer was written (a task cancelled while it is executing leaves the
     # mailboxes it creates afterwards); DropLateBoxes is the repair proposed for it
     'latebox_MAX': _c('MA', cancel=True, off=dict(DropLateBoxes=False), inv=['NoLateBox'], live=False, expect='NoLateBox'),
+    # a second defect of that code (found by a random line-level scenario of C12, then modelled): a CANCEL that drops a mailbox
+    # of a task which is just completing makes _process_task_completion raise KeyError outside every handler -> the worker dies
+    'dieloop_CANL': _c('CANL', place='PlaceLocal', inv=['NoErr'], live=False, expect='NoErr'),
     # the model WITH the proposed repair, whatever the tree under test looks like (model checking only)
     'fixed_MAX': _c('MA', cancel=True), 'fixed_CAN': _c('CAN'), 'fixed_CANB': _c('CANB', place='PlaceLocal'), 'fixed_LEFT1': _c('LEFT1'),
 }
@@ -212,6 +217,7 @@ def _anchor_table():
         'stepCheck': (ts, [r'if self\._drop_mailboxes_if_cancelled\(task\):'], 'first'),
         'complPop': (pc_, [r'self\._tasks\.pop\(task\.return_address, None\)'], 'first'),
         'complLoop': (pc_, [r'if mailbox_id in self\._mailboxes:'], 'first'),
+        'die': (Wk._loop, [r'self\._running = False'], 'first'),
     }
     hrl = {
         'hrLock': (hr, [r'with self\.mailbox_mutex:'], 'first'),
@@ -241,7 +247,7 @@ def traced_functions():
     import bqskit.runtime.worker as W
     from bqskit.runtime.task import RuntimeTask
     Wk = W.Worker
-    return [Wk._get_next_ready_task, Wk._try_step_next_ready_task, Wk._add_task, Wk._get_desired_result, Wk._process_await,
+    return [Wk._loop, Wk._get_next_ready_task, Wk._try_step_next_ready_task, Wk._add_task, Wk._get_desired_result, Wk._process_await,
             Wk._process_task_completion, Wk._handle_result, Wk._handle_cancel, Wk.recv_incoming, Wk.submit, Wk.map, Wk.cancel,
             Wk.next, RuntimeTask.step]
 
@@ -303,7 +309,7 @@ SUCC_MAIN = {
     'gdrLock': {'gdrBody'}, 'gdrBody': {'exc', 'resume'}, 'exc': {'top'}, 'resume': {'exc'} | _INS,
     'submit': set(_INS), 'map': set(_INS), 'cancel': {'exc'} | _INS, 'next': {'exc', 'paLock', 'stepCheck'},
     'stepCheck': {'paLock', 'top'}, 'paLock': {'paCheck'}, 'paCheck': {'exc', 'paReady'}, 'paReady': {'paAct'}, 'paAct': {'top'},
-    'complCheck': {'top', 'hrLock', 'complPop'}, 'complPop': {'top', 'complLoop'}, 'complLoop': {'top', 'complLoop', 'exc'},
+    'complCheck': {'top', 'hrLock', 'complPop'}, 'complPop': {'top', 'complLoop'}, 'complLoop': {'top', 'complLoop', 'die'}, 'die': set(),
     'hrLock': {'hrDeposit'}, 'hrDeposit': {'hrCheck', 'complPop'}, 'hrCheck': {'hrWake', 'complPop'}, 'hrWake': {'complPop', 'hrClear'},
     'hrClear': {'complPop'},
 }
@@ -928,6 +934,11 @@ def _plan(prop, quick):
         return dict(exh=['CAN', 'MAX', 'LEFT1'], sim=[('CAN', 20), ('MAX', 30), ('CANB', 20), ('LEFT1', 10)], cex=['noforget_CAN', 'latebox_MAX'],
                     adv=[('noforget_CAN', 10)], rec=[('CAN', 15), ('MAX', 15), ('CANB', 15), ('LEFT1', 10)])
     allc = ['CAN', 'LEFT', 'LEFT1', 'CANB', 'MAX']
+    if not repaired():
+        # the model WITH the repair proposed for the mailbox leak is checked as well (model checking only, nothing to bind it to yet)
+        return dict(exh=allc + ['fixed_MAX', 'fixed_CAN', 'fixed_CANB', 'fixed_LEFT1'], sim=[(c, 300) for c in allc],
+                    cex=['noforget_CAN', 'norebind_CANB', 'latebox_MAX'], adv=[('noforget_CAN', 100), ('norebind_CANB', 100)],
+                    rec=[(c, 200) for c in allc])
     return dict(exh=allc, sim=[(c, 300) for c in allc], cex=['noforget_CAN', 'norebind_CANB', 'latebox_MAX'],
                 adv=[('noforget_CAN', 100), ('norebind_CANB', 100)], rec=[(c, 200) for c in allc])
 
@@ -1175,6 +1186,11 @@ def annotate_residue(out):
     items = getattr(out, 'items', None) or []
     by_clients = {id(sc.get('clients')): tr for tr, dg, sc in items}
     for v in out.violations:
+        f = v.replay.get('scenario', {}).get('fine')
+        if f:                        # say where a WorkerFine execution came from
+            v.key['fine_config'], v.key['fine_mode'] = f['cfg'], f['mode']
+            v.detail += '\nWorkerFine execution: configuration %s, mode %s (guided = TLC behaviour replayed action by action, schedule = TLC ' \
+                        'counterexample of a model with a fix switched off used as a schedule, random = anchor-granular random run)' % (f['cfg'], f['mode'])
         if not v.clause.startswith('residue-of-cancelled-work:worker.mailboxes'):
             continue
         tr = by_clients.get(id(v.replay.get('scenario', {}).get('clients')))
